@@ -11,7 +11,7 @@ EXPLANATION = (
     "that the default colour/intensity limits are the limits() of the red/green/blue/intensity record types in this order and "
     "limits() maps every data type to same-typed values of its own min/max, that the setters overwrite the published field "
     "and limits are emitted only when complete, and that no rejection of a point is reachable after a bound was updated. "
-    "Not decided: exactness of the extrema for concrete point sequences; the XML tags of the bounds are decided under C04.")
+    "Also the writer/reader field maps of the bounds, limits and point cloud structures: the bounds that were computed are the ones written. Not decided: exactness of the extrema for concrete point sequences; the XML tags of the bounds are decided under C04.")
 
 
 def run(ctx):
